@@ -278,14 +278,24 @@ def closure_rule(ctx, rep, rid):
         floor=3,
         breaks='the release filter does not see a transitive upstream algorithm (only parents): a grandchild is released while its grandparent is pending',
     ) as r:
-        # ---- _ancestry
-        f = prog.nfunc('dawgie.pl.dag.Construct._ancestry')
-        rep.analysed(f)
+        # ---- the closure pass: Construct._ancestry, or - when that method was renamed / merged away - whichever method of
+        # Construct contains a fix-point loop that ends in the 'ancestry' attribute (found by role)
+        if 'dawgie.pl.dag.Construct._ancestry' in prog.funcs:
+            cand_fs = [prog.nfunc('dawgie.pl.dag.Construct._ancestry')]
+        else:
+            cand_fs = [prog.nfunc(q) for q, g_ in sorted(prog.funcs.items()) if g_.cls is not None and g_.cls.qname == 'dawgie.pl.dag.Construct' and g_.parent is None]
+            if not cand_fs:
+                raise AnalysisError('dawgie.pl.dag.Construct has no methods')
         r.instance()
-        whiles = [n for n in f.own_nodes() if isinstance(n, ast.While)]
         found = False
         detail = 'no while loop with a frontier variable found'
-        for w in whiles:
+        f = cand_fs[0]
+        whiles = []
+        for cf in cand_fs:
+            rep.analysed(cf)
+            for w_ in [n for n in cf.own_nodes() if isinstance(n, ast.While)]:
+                whiles.append((cf, w_))
+        for f, w in whiles:
             tvars = names_in(w.test)
             for v in sorted(tvars):
                 # frontier reassigned at the top level of the loop body
@@ -362,7 +372,16 @@ def closure_rule(ctx, rep, rid):
                 break
             if found:
                 break
-        r.check(found, f'{f.qname}:fix-point', where(f), detail, f'Construct._ancestry is not a fix-point closure: {detail}')
+        if not found:
+            f = cand_fs[0]
+        name0 = 'dawgie.pl.dag.Construct._ancestry'
+        r.check(
+            found,
+            f'{name0}:fix-point',
+            where(f),
+            detail,
+            (f'Construct._ancestry is not a fix-point closure: {detail}' if name0 in prog.funcs else f'no method of dag.Construct computes the ancestry sets by a fix-point closure over the parent edges (Construct._ancestry is gone; {detail}): ancestry is not the transitive closure of parents'),
+        )
 
         # ---- _parents
         p = prog.nfunc('dawgie.pl.dag.Construct._parents')
